@@ -893,9 +893,22 @@ class Interp:
     def compare(self, op, a, b, node=None):
         return self.lib.compare(self, op, a, b, node)
 
+    def mangle(self, name, fr):
+        """private name mangling inside a class body: self.__x -> self._Class__x"""
+        if not (name.startswith("__") and not name.endswith("__")):
+            return name
+        f = fr
+        while f is not None:
+            q = getattr(getattr(f, "func", None), "qualname", "") or ""
+            parts = [x for x in q.split(".") if x != "<locals>"]
+            if len(parts) >= 2 and parts[-2][:1].isupper():
+                return "_" + parts[-2].lstrip("_") + name
+            f = getattr(f, "parent", None)
+        return name
+
     def e_Attribute(self, node, fr):
         obj = self.eval(node.value, fr)
-        return self.getattr_(obj, node.attr, node)
+        return self.getattr_(obj, self.mangle(node.attr, fr), node)
 
     def getattr_(self, obj, name, node=None, default=None, has_default=False):
         return self.lib.getattr_(self, obj, name, node, default, has_default)
@@ -1256,7 +1269,7 @@ class Interp:
             cur = self.lib.index(self, obj, idx, st)
         elif isinstance(tg, ast.Attribute):
             obj = self.eval(tg.value, fr)
-            cur = self.getattr_(obj, tg.attr, st)
+            cur = self.getattr_(obj, self.mangle(tg.attr, fr), st)
         else:
             self.unsupported("augassign target", st)
         rhs = self.eval(st.value, fr)
@@ -1311,7 +1324,7 @@ class Interp:
             self.lib.setitem(self, obj, idx, v, tg)
         elif isinstance(tg, ast.Attribute):
             obj = self.eval(tg.value, fr)
-            self.lib.setattr_(self, obj, tg.attr, v, tg)
+            self.lib.setattr_(self, obj, self.mangle(tg.attr, fr), v, tg)
         else:
             self.unsupported("assignment target", tg)
 
@@ -1363,7 +1376,7 @@ class Interp:
                 self.lib.delitem(self, obj, idx, st)
             elif isinstance(tg, ast.Attribute):
                 obj = self.eval(tg.value, fr)
-                self.lib.delattr_(self, obj, tg.attr, st)
+                self.lib.delattr_(self, obj, self.mangle(tg.attr, fr), st)
             elif isinstance(tg, ast.Name):
                 fr.env.pop(tg.id, None)
             else:
